@@ -154,6 +154,10 @@ def run(run: C.Run):
     kernel_cases(run, rng, 8000 if thorough else 1600)
     cases = F.corpus("C01") + gen_cases(rng, 12000 if thorough else 2500)
     R.check_reduce_cases(run, cases, "C01", nontrivial, full=True)
+    # many requested labels on a float grid / sparse ids with repeated UNREQUESTED labels in the data (C05's stream, every engine)
+    from tools.props.c05 import wide_cases as _wide
+    wc = [dict(c, engine=rng.choice(ENGINES)) for c in _wide(rng, 600 if thorough else 150) if "chunks" not in c]
+    R.check_reduce_cases(run, wc, "C01", nontrivial, full=True, model=False)
     # wide label spaces: compared with the NumPy oracle only (400-700 slots per case are not sent to Coq)
     R.check_reduce_cases(run, wide_code_cases(rng, 1500 if thorough else 300), "C01", nontrivial, full=True, model=False)
     F.probe_kf05(run)
